@@ -409,6 +409,9 @@ pub fn scope(name: &str) -> Scope {
         ),
         // literal prefixes that overlap themselves (prefix-scan shortcut), longer inputs
         "LP" => Scope::new("LP", &["a", "b", "aa", "ab", "aab", "aba", "abab"], &["*", "?", "+"], false, &['a', 'b']),
+        // literal prefixes that mix the case of one letter (a prefix scan that must stay
+        // case-blind under flag i, also when it skips ahead after a partial hit)
+        "LPI" => Scope::new("LPI", &["a", "A", "b", "aA", "Ab", "aAb", "AaB", "abA"], &["*", "?"], false, &['a', 'A', 'b']),
         // group nesting: capturing groups around / beside possibly-empty terms
         "NEST" => Scope::new("NEST", &["a", "b?", "c*"], &[], true, &['a', 'b', 'c']),
         // alternations of short literals in every order (ordered choice across branches of
